@@ -56,7 +56,7 @@ macro_rules! round_twins {
             }
             #[cfg(kani)]
             #[kani::proof]
-            fn rounding_all_layouts() {
+            pub fn rounding_all_layouts() {
                 let a: $T = kani::any();
                 let f = any_frac8();
                 with_frac8!(f, F => check::<F>(a, f));
